@@ -2,6 +2,7 @@
 package c15
 
 import (
+	"bytes"
 	"encoding/json"
 	"fmt"
 	"os"
@@ -59,15 +60,27 @@ func withSwitches(o ggen.Options) ggen.Options {
 	return o
 }
 
+// widened later (both routes): commits that import 10-30 files at once (more than the ten lines of a
+// change-log section, more than the twenty rows the tables cut at with --full), up to 8 authors, names
+// that are a prefix / suffix of another name, author names with inner punctuation, files of hundreds
+// of lines, executable files and mode-only changes (a revision without any line change)
+func widened(o ggen.Options) ggen.Options {
+	o.BulkAdds, o.AffixNames, o.PunctAuthors, o.BigFiles, o.ExecFiles, o.ModeChanges = true, true, true, true, true, true
+	o.MaxAuthors = 8
+	return o
+}
+
 func synOptions() ggen.Options {
-	return withSwitches(ggen.Options{MaxCommits: 30, MaxPaths: 8, Empty: true, Binary: true, BracketHex: true, RepeatAuthor: true, RepeatDate: true, NumericSpacePaths: true})
+	o := widened(withSwitches(ggen.Options{MaxCommits: 30, MaxPaths: 8, Empty: true, Binary: true, BracketHex: true, RepeatAuthor: true, RepeatDate: true, NumericSpacePaths: true}))
+	o.LeadingBlankPaths = true // the summaries never see the log text, only the commit list
+	return o
 }
 
 // the parser route stays inside the part of C14's domain in which the pinned parser is
 // right (no bracketed hex / repeated author or date in subjects, no number-blank path
 // components), so that C15 judges the summaries and not the parser
 func parsedOptions() ggen.Options {
-	return withSwitches(ggen.Options{MaxCommits: 12, MaxPaths: 5, Empty: true, Binary: true})
+	return widened(withSwitches(ggen.Options{MaxCommits: 12, MaxPaths: 5, Empty: true, Binary: true}))
 }
 
 func genSyn(t *rapid.T) SynCase {
@@ -77,10 +90,23 @@ func genSyn(t *rapid.T) SynCase {
 	if err != nil {
 		panic("c15: generated history does not simulate: " + err.Error())
 	}
-	exp := ggen.Expect(sim, ggen.GenHashes(t, len(sim.Log())))
+	log := sim.Log()
+	hashes := ggen.GenHashes(t, len(log))
+	byRev := map[string]ggen.Expected{}
+	for _, e := range ggen.Expect(sim, hashes) {
+		byRev[e.Rev] = e
+	}
 	var c SynCase
 	freeNumbers := rapid.IntRange(0, 2).Draw(t, "freeNumbers") > 0
-	for _, e := range exp {
+	for i, lc := range log {
+		e, ok := byRev[hashes[i]]
+		if !ok {
+			// a commit without file changes: the parser never lists one, a synthesised list may
+			if rapid.IntRange(0, 3).Draw(t, "keepEmptyCommit") == 3 {
+				c.Commits = append(c.Commits, SynCommit{Rev: hashes[i], Author: lc.Commit.Author, Date: lc.Commit.Date, Subject: lc.Commit.Subject, Type: lc.Commit.Type})
+			}
+			continue
+		}
 		sc := SynCommit{Rev: e.Rev, Author: e.Author, Date: e.Date, Subject: e.Subject, Type: e.Type}
 		for _, d := range e.Entries {
 			ch := SynChange{Kind: string(d.Kind), Old: d.Old, New: d.New, Added: d.Added, Deleted: d.Deleted}
@@ -384,6 +410,14 @@ func judge(c SynCase, msgs []git.CommitMessage) pbt.Verdict {
 	if d := diffSets("changelog map", flat(cm), flat(ref.change)); d != "" {
 		return fail("%s", d)
 	}
+	// the printed change-log summary (`coca git -m`)
+	var buf bytes.Buffer
+	if p := pbt.Call(func() { git.ShowChangeLogSummary(copyMessages(msgs), &buf) }); p != "" {
+		return fail("ShowChangeLogSummary panicked: %s", p)
+	}
+	if d := checkChangeLogText(buf.String(), ref.change); d != "" {
+		return fail("change-log summary: %s\n-- printed --\n%s", d, buf.String())
+	}
 
 	// classification
 	v := pbt.Verdict{}
@@ -403,6 +437,18 @@ func judge(c SynCase, msgs []git.CommitMessage) pbt.Verdict {
 	add(ref.recreate > 0, "path_recreated_after_delete_or_rename")
 	add(len(ref.live) == 0 && len(c.Commits) > 0, "no_file_left")
 	add(len(ref.change) > 0, "conventional_subjects")
+	add(len(ref.live) > 20, "files_left>20")
+	add(len(ref.authors) >= 5, "authors>=5")
+	for _, files := range ref.change {
+		add(len(files) > 10, "changelog_type_with_files>10")
+	}
+	for _, sc := range c.Commits {
+		add(len(sc.Changes) == 0, "commit_without_changes")
+		add(len(sc.Changes) >= 10, "commit_with_changes>=10")
+		for _, ch := range sc.Changes {
+			add(ch.Kind == "M" && ch.Added+ch.Deleted == 0, "revision_without_line_change")
+		}
+	}
 	multiRev, multiAuthor, chain := false, false, false
 	revTie, dateTie := false, false
 	seenRevs, seenDates := map[int]bool{}, map[string]bool{}
@@ -487,6 +533,69 @@ func judge(c SynCase, msgs []git.CommitMessage) pbt.Verdict {
 	raw, _ := json.Marshal(c)
 	v.Canon = string(raw)
 	return v
+}
+
+// checkChangeLogText reads what ShowChangeLogSummary printed: per type a section
+//
+//	<type> :
+//	---------------------
+//	<file>, <count>          at most ten lines
+//	=====================
+//
+// Every type with files has exactly one section with min(10, files) lines, every line names a
+// file of that type with its count, no file twice. Which ten of more files are shown, and the
+// order of sections and lines, is not promised.
+func checkChangeLogText(text string, want map[string]map[string]int) string {
+	const end = "=====================\n"
+	parts := strings.Split(text, end)
+	if parts[len(parts)-1] != "" {
+		return fmt.Sprintf("text after the last section: %q", parts[len(parts)-1])
+	}
+	seen := map[string]bool{}
+	for _, sec := range parts[:len(parts)-1] {
+		lines := strings.Split(strings.TrimSuffix(sec, "\n"), "\n")
+		if len(lines) < 2 || !strings.HasSuffix(lines[0], " :") || strings.Trim(lines[1], "-") != "" {
+			return fmt.Sprintf("section does not start with `<type> :` and a rule: %q", sec)
+		}
+		typ := strings.TrimSuffix(lines[0], " :")
+		if seen[typ] {
+			return fmt.Sprintf("type %q has two sections", typ)
+		}
+		seen[typ] = true
+		files := want[typ]
+		wantLines := len(files)
+		if wantLines > 10 {
+			wantLines = 10
+		}
+		if len(lines)-2 != wantLines {
+			return fmt.Sprintf("type %q: %d lines printed, %d files were touched by commits of that type (ten are shown at most)", typ, len(lines)-2, len(files))
+		}
+		shown := map[string]bool{}
+		for _, l := range lines[2:] {
+			i := strings.LastIndex(l, ", ")
+			if i < 0 {
+				return fmt.Sprintf("type %q: line %q is not `<file>, <count>`", typ, l)
+			}
+			file, count := l[:i], l[i+2:]
+			n, ok := files[file]
+			if !ok {
+				return fmt.Sprintf("type %q: line %q names a file no commit of that type touched", typ, l)
+			}
+			if count != fmt.Sprint(n) {
+				return fmt.Sprintf("type %q: line %q, but %d commits of that type touched the file", typ, l, n)
+			}
+			if shown[file] {
+				return fmt.Sprintf("type %q: file %q is listed twice", typ, file)
+			}
+			shown[file] = true
+		}
+	}
+	for _, typ := range sortedKeys(want) {
+		if len(want[typ]) > 0 && !seen[typ] {
+			return fmt.Sprintf("no section for type %q (%d files)", typ, len(want[typ]))
+		}
+	}
+	return ""
 }
 
 func dedupe(in []string) []string {
@@ -580,6 +689,7 @@ func init() {
 		"the 'parsed' route uses linear histories and leaves out the subject and path shapes on which the pinned parser is wrong (C14's findings); a case whose parser output differs from the history is skipped and counted, not judged")
 	pbt.Register("syn", 3000, 30000, genSyn, checkSyn)
 	pbt.Register("parsed", 2000, 10000, genParsed, checkParsed)
+	pbt.Register("cli", 60, 100, genCli, checkCli)
 }
 
 func selfTest(t *testing.T, n int) {
